@@ -3,7 +3,7 @@ from checks_common import *
 CHECK = dict(
     src=['harness/c02_robustness.cpp'], variants=[P], level='exploration', deadline=dict(quick=300, thorough=3600),
     technique='exhaustive enumeration of all short inputs over class-complete byte/character alphabets plus pumping families (2^k nesting depth / declared sizes), executed on the real loaders and converters under sanitizers, an allocation meter and worker/child supervision',
-    level_text='MsgPack: every byte string of length <= 3 (thorough 4; the length-4 words into 3 of the targets (int32, vector<int>, class)) over a 47-symbol alphabet holding every format-code class and length-field boundary, into 12 targets (scalars, string, sequences, byte container, maps, class, '
+    level_text='MsgPack: every byte string of length <= 3 (thorough 4; the length-4 words into 3 of the 12 targets (int32, vector<int>, class)) over a 47-symbol alphabet holding every format-code class and length-field boundary, into 12 targets (scalars, string, sequences, byte container, maps, class, '
                'time_point, nested vector, tuple), memory and stream, Throw and Skip policies. CSV/JSON/XML: every string of length <= 5/4/4 (thorough 6/5/5) over their structural alphabets into row/scalar/array/class/map targets. '
                'Converters: every string of length <= 3 (thorough 4) over a 20-symbol numeric/ISO-8601 alphabet into 17 Convert::To targets in char, char16_t and char32_t. Pumping: 11 families with depth/size 2^k, k <= 16 (thorough 20). '
                'Stream refill boundary: 21 MsgPack item forms (every multi-byte scalar, 8/16/32-bit length fields, timestamps, ext; four of them declare 2113 bytes/elements that are not there) placed at 20 offsets around the end of the 256-byte reader cache inside a 3-element array, cut at every byte or with one byte set to ff/00, into 8 tuple targets (typed and mismatching), memory and stream, both policies. '
